@@ -24,7 +24,7 @@ if [ "${1:-}" = "--one" ]; then run $2 $3; exit 0; fi
 { for d in seeded/C*; do s=$(basename $d); echo "$s ${s%%-*}"; done
   # cross-checks: seeds that another property's check sees as well
   echo "C01-B C15"; echo "C01-D C15"; echo "C18-B C10"; echo "C11-B C13"; echo "C11-C C13"; echo "C01-E C20"; echo "C20-D C08"; echo "C20-F C08"
-  echo "C15-G C01"; echo "C01-H C04"; echo "C19-G C11"; echo "C11-F C12"; echo "C05-F C14"
+  echo "C15-G C01"; echo "C01-H C04"; echo "C19-G C11"; echo "C05-F C14"
 } | xargs -P ${LANES:-3} -L 1 bash -c 'VERIF_EVIDENCE_DIR=/tmp/seedmatrix_evidence_$$ VERIF_REPLAY_DIR=/tmp/seedmatrix_replays_$$ "$0" --one $1 $2; rm -rf /tmp/seedmatrix_evidence_$$ /tmp/seedmatrix_replays_$$' "$ROOT/tools/seed_matrix.sh"
 sort -o $out.sorted $out && { grep '^seed' $out.sorted; grep -v '^seed' $out.sorted; } > $out; rm -f $out.sorted
 rm -rf /tmp/seedmatrix_evidence /tmp/seedmatrix_replays
